@@ -175,6 +175,12 @@ def run_ruler(rec: dict, res: RunResult) -> None:
         if len(set(main_ids)) != len(main_ids):
             res.fail("COHERENCE", f"op {k}: a function occurs twice in the applied chain: {main_ids}", last_mut)
             return
+        if not dup_mode:
+            exp_ids = [r["fid"] for r in model.recs if r["on"]]
+            if main_ids != exp_ids:
+                res.fail("COHERENCE", f"op {k}: applied functions {main_ids} are not the functions last registered for "
+                                      f"the active rules {exp_ids} (names {reported}; after {last_mut})", last_mut)
+                return
         # reported active is a sub-sequence of all rules
         it = iter(allr)
         if not all(any(x == y for y in it) for x in reported):
@@ -280,13 +286,14 @@ def run_ruler(rec: dict, res: RunResult) -> None:
         m_before = copy.deepcopy(model.recs)
         exp_raise = False
         if kind == "push":
-            model.recs.append({"name": op[1], "on": True, "alt": list(op[3] or [])})
+            model.recs.append({"name": op[1], "on": True, "alt": list(op[3] or []), "fid": op[2]})
         elif kind in ("before", "after"):
             i = model.find(op[1])
             if i < 0:
                 exp_raise = True
             else:
-                model.recs.insert(i + (kind == "after"), {"name": op[2], "on": True, "alt": list(op[4] or [])})
+                model.recs.insert(i + (kind == "after"), {"name": op[2], "on": True, "alt": list(op[4] or []),
+                                                          "fid": op[3]})
         elif kind == "at":
             i = model.find(op[1])
             if i < 0:
@@ -295,6 +302,7 @@ def run_ruler(rec: dict, res: RunResult) -> None:
                 if op[3] is not None and list(op[3]) != model.recs[i]["alt"]:
                     res.count("at_changed_alt")
                 model.recs[i]["alt"] = list(op[3] or [])
+                model.recs[i]["fid"] = op[2]
         else:
             found, exp_raise = model.set_many(op[1], kind != "disable", op[2], only=(kind == "enableOnly"))
             if not exp_raise and ret is not None and set(ret) != set(found):
@@ -375,21 +383,23 @@ def _mk_plugin(which: str, tag: str):
     return rule
 
 
-def _wrap(fn, which, name, log: set):
+def _wrap(fn, which, name, log: set, tag: str = ""):
+    lname = name + tag
     if which == "block":
         def w(state, startLine, endLine, silent):
-            log.add((which, name, bool(silent)))
+            log.add((which, lname, bool(silent)))
             return fn(state, startLine, endLine, silent)
     elif which == "inline":
         def w(state, silent):
-            log.add((which, name, bool(silent)))
+            log.add((which, lname, bool(silent)))
             return fn(state, silent)
     else:
         def w(state):
-            log.add((which, name, False))
+            log.add((which, lname, False))
             return fn(state)
     w.rule_name = name
     w.which = which
+    w.inner = fn
     return w
 
 
@@ -430,7 +440,40 @@ def instrument(md, log: set):
             w = _wrap(f, which, nm, log)
             w.alt_decl = list(alts[which][nm])
             r.at(nm, w, {"alt": list(alts[which][nm])})
+            md.__dict__.setdefault("_verif_registry", {})[(which, nm)] = w
         r.enableOnly(active)
+
+
+def _do_replace(md, op, log: set):
+    """Ruler.at on a rule of the instance: a new recording wrapper (tagged) around the original function; the
+    terminator-chain membership is kept ("same") or replaced by the given list."""
+    _, which, name, tag, alt = op
+    r = _ruler(md, which)
+    if name not in r.get_all_rules():
+        r.at(name, _noop_rule(which))     # raises KeyError (unknown name)
+        return
+    # find the currently registered function without touching the cache state: a scratch twin ruler is not available,
+    # so the harness keeps its own registry on the instance
+    reg = md.__dict__.setdefault("_verif_registry", {})
+    cur = reg.get((which, name))
+    inner = cur.inner if cur is not None else None
+    declared = list(cur.alt_decl) if cur is not None else []
+    new_alt = declared if (alt is None or alt == "same") else list(alt)
+    w = _wrap(inner, which, name, log, tag)
+    w.alt_decl = new_alt
+    if which == "block":
+        r.at(name, w, {"alt": list(new_alt)})
+    else:
+        r.at(name, w)
+    reg[(which, name)] = w
+
+
+def _noop_rule(which):
+    if which == "block":
+        return lambda state, startLine, endLine, silent: False
+    if which == "inline":
+        return lambda state, silent: False
+    return lambda state: None
 
 
 def _bad_preset(rng: random.Random) -> dict:
@@ -493,14 +536,22 @@ def gen_facade(rng: random.Random) -> dict:
             alt = rng.sample(BLOCK_ALT, rng.randint(0, 3)) if which == "block" else []
             pid += 1
             return ["plugin", which, kind, ref, f"plug{pid}", alt]
-        if r < 0.88:
+        if r < 0.84:
+            which = rng.choice(RULERS)
+            pid += 1
+            name = rng.choice(allnames[which]) if rng.random() > p_unknown * 0.5 else "nope"
+            alt = None
+            if which == "block":
+                alt = rng.choice(["same", "same", rng.sample(BLOCK_ALT, rng.randint(0, 3))])
+            return ["replace", which, name, f"#v{pid}", alt]
+        if r < 0.90:
             if rng.random() < 0.35:
                 return ["configure", _bad_preset(rng), None]
             upd = {"linkify": False}
             if rng.random() < 0.5:
                 upd[rng.choice(["html", "typographer", "breaks", "xhtmlOut"])] = rng.random() < 0.5
             return ["configure", rng.choice(["commonmark", "zero", "js-default", "gfm-like", "nopreset"]), upd]
-        if r < 0.96 and depth < 2:
+        if r < 0.97 and depth < 2:
             return ["reset_rules", [one(depth + 1) for _ in range(rng.randint(0, 3))]]
         return ["parse", docgen.document(rng, 2)]
 
@@ -643,6 +694,11 @@ def run_facade(rec: dict, res: RunResult) -> None:
                         exp_act[which] = [x for x in exp_all[which] if x in on]
                     getattr(r, pk)(ref, pname, fn, opts) if opts else getattr(r, pk)(ref, pname, fn)
                 registrations.append(op)
+                md.__dict__.setdefault("_verif_registry", {})[(which, pname)] = fn
+            elif kind == "replace":
+                exp_raise = op[2] not in b_all[op[1]]
+                _do_replace(md, op, log)
+                registrations.append(op)
             elif kind == "configure":
                 _, preset, upd = op
                 if isinstance(preset, str):
@@ -710,8 +766,15 @@ def run_facade(rec: dict, res: RunResult) -> None:
     tlog: set = set()
     instrument(twin, tlog)
     for op in registrations:
+        if op[0] == "replace":
+            try:
+                _do_replace(twin, op, tlog)
+            except KeyError:
+                pass
+            continue
         _, which, pk, ref, pname, alt = op
         fn = _wrap(_mk_plugin(which, pname), which, pname, tlog)
+        fn.alt_decl = list(alt)
         r = _ruler(twin, which)
         opts = {"alt": list(alt)} if which == "block" else None
         try:
@@ -719,6 +782,7 @@ def run_facade(rec: dict, res: RunResult) -> None:
                 r.push(pname, fn, opts) if opts else r.push(pname, fn)
             else:
                 getattr(r, pk)(ref, pname, fn, opts) if opts else getattr(r, pk)(ref, pname, fn)
+            twin.__dict__.setdefault("_verif_registry", {})[(which, pname)] = fn
         except KeyError:
             pass
     twin.set(dict(md.options))
@@ -735,7 +799,7 @@ def run_facade(rec: dict, res: RunResult) -> None:
         out = _safe_render(md, d)
         tout = _safe_render(twin, d)
         res.events.append(["probe", out, sorted(log)])
-        bad = sorted(x for x in log if (x[0], x[1]) not in active_set)
+        bad = sorted(x for x in log if (x[0], x[1].split("#")[0]) not in active_set)
         if bad:
             res.fail("UNREPORTED_RULE_INVOKED", f"parsing invoked rules not reported active: {bad[:5]} "
                                                 f"(after {last_mut})", last_mut)
